@@ -18,7 +18,7 @@ RULE = ("a hierarchy of 3-8 classes created with type(name, (Base,), {}) under A
         "Agent and Environment themselves; non-trivial = hierarchy depth >=2 with a sibling and >=1 default-tag change "
         "on a subclass followed by instantiation of that subclass, its parent and its child; distinct = sequence of "
         "(class position in the hierarchy, op, outcome)"
-        "; also: classes created in mid-history (fresh / shared namespace dict / cloned from another class's __dict__), class-level operations issued from __init_subclass__ while a class is being created, model lifecycle ops, rare stress runs with hundreds of classes, one of the three component types is falsy (__len__ == 0)")
+        "; also: models built in mid-history (their default environment is created with Environment's default tag of that moment), classes created in mid-history (fresh / shared namespace dict / cloned from another class's __dict__), class-level operations issued from __init_subclass__ while a class is being created, model lifecycle ops, rare stress runs with hundreds of classes, one of the three component types is falsy (__len__ == 0)")
 COMPONENTS = {"real": ["ECAgent.Core._MetaAgent (per-class _components / _tag, add/remove/get/has_class_component, "
                        "__getitem__/__len__/__contains__, tag property)", "Agent.__init__ (default tag)", "Environment / "
                        "SpaceWorld constructors"],
@@ -26,7 +26,7 @@ COMPONENTS = {"real": ["ECAgent.Core._MetaAgent (per-class _components / _tag, a
 PROBES = ["explicit_tag_zero_with_nonzero_default", "tag_set_on_Agent_itself", "class_component_on_environment_class",
           "reject_duplicate_attach", "reject_detach_absent", "instance_component_attached", "subclass_instantiated_after_tag",
           "parent_instantiated_after_child_tag", "child_instantiated_after_parent_tag", "depth_3_chain", "sibling_isolation_checked", "class_created_mid_history", "class_cloned_from_namespace",
-          "shared_namespace_dict", "model_lifecycle_op", "many_classes", "class_level_op_inside_creation_hook"]
+          "shared_namespace_dict", "model_lifecycle_op", "many_classes", "class_level_op_inside_creation_hook", "model_built_mid_history"]
 TECHNIQUE = "deterministic simulation: seeded class-level attach/detach/tag histories over generated hierarchies, pristine forked process per history, per-class reference"
 LEVEL_TEXT = ("Seeded search over class hierarchies and class-level histories; after every operation, for every class in the "
               "hierarchy including Agent and Environment, class components, length, membership and default tag must equal a "
@@ -123,6 +123,13 @@ def generate(rng, tier):
             ops.append({"op": "lifecycle", "c": c, "what": rng.choice(["complete", "step"])})
         else:
             ops.append({"op": "observe"})
+    if rng.random() < 0.3:
+        # models built in mid-history: the environment a Model() brings along is an Environment created without an explicit
+        # tag at that moment - whenever it is first looked at
+        for _ in range(rng.randint(1, 3)):
+            at = rng.randint(0, len(ops))
+            ops.insert(at, {"op": "new_model"})
+            ops.insert(rng.randint(at + 1, len(ops)), {"op": "touch_models", "step": rng.random() < 0.3})
     many = rng.choice([140, 180, 260]) if rng.random() < (0.04 if tier == "thorough" else 0.015) else 0
     return {"classes": classes, "ops": ops, "many": many}
 
@@ -175,6 +182,7 @@ def execute(sc, ctx):
                 tags[idx] = act["tag"]
             ctx.probe("class_level_op_inside_creation_hook")
     shape = []
+    models = []        # [model, Environment's default tag when it was built, looked at yet?]
     counter = [0]
 
     def depth(i):
@@ -224,6 +232,22 @@ def execute(sc, ctx):
         kind = op["op"]
         if kind == "observe":
             check_all("observe")
+            continue
+        if kind == "new_model":
+            models.append([ctx.expect_ok("new-model", Model, seed=5), tags[idx_env], False])
+            ctx.probe("model_built_mid_history")
+            continue
+        if kind == "touch_models":
+            for rec_ in models:
+                if rec_[2]:
+                    continue
+                rec_[2] = True
+                if op.get("step"):
+                    ctx.expect_ok("step-new-model", rec_[0].execute)
+                got = rec_[0].environment.tag
+                ctx.check(got == rec_[1], "model-environment-default-tag",
+                          f"the environment of a Model() built while Environment's default tag was {rec_[1]!r} has tag {got!r} "
+                          f"(Environment.tag is now {tags[idx_env]!r})")
             continue
         i = op["c"] % len(built)
         cls, parent, rootkind = built[i]
